@@ -28,8 +28,27 @@ def _delete(x):
     return (f"s.delete({x})", fn)
 
 
+def _note_attach(e, s, *objs):
+    """attaching something to an object on which Session.delete() was already called is a contradictory request (the delete cascade ran
+    at delete() time; what is attached afterwards is neither cascaded nor detached): recorded, such a flush may fail"""
+    for o in objs:
+        if o is not None and o in s.deleted:
+            e["_contradiction"] = "an object was attached to an object already marked deleted by an earlier Session.delete()"
+
+
+def _enter(e, s, x):
+    """an operation whose subject is one of the new (transient) objects adds it to the session first — otherwise nothing of it would reach the flush"""
+    from sqlalchemy import inspect
+    if inspect(e[x]).transient:
+        s.add(e[x])
+
+
 def _set(x, attr, y):
-    return (f"{x}.{attr}={y}", lambda e, s: setattr(e[x], attr, None if y is None else e[y]))
+    def fn(e, s):
+        _note_attach(e, s, None if y is None else e[y])
+        _enter(e, s, x)
+        setattr(e[x], attr, None if y is None else e[y])
+    return (f"{x}.{attr}={y}", fn)
 
 
 def _append(x, attr, y):
@@ -37,6 +56,8 @@ def _append(x, attr, y):
         coll = getattr(e[x], attr)
         if e[y] in coll:
             raise Skip("already a member")
+        _note_attach(e, s, e[x], e[y])
+        _enter(e, s, x)
         coll.append(e[y])
     return (f"{x}.{attr}.append({y})", fn)
 
@@ -47,6 +68,8 @@ def _append_exclusive(x, attr, y):
         for k, o in e.items():
             if not k.startswith("_") and type(o) is type(e[x]) and e[y] in o.__dict__.get(attr, ()):
                 raise Skip("already a member of a loaded collection")
+        _note_attach(e, s, e[x])
+        _enter(e, s, x)
         getattr(e[x], attr).append(e[y])
     return (f"{x}.{attr}.append({y})", fn)
 
@@ -71,6 +94,8 @@ def _move(x, attr, y, z):
         coll = getattr(e[z], attr)
         if e[y] in coll:
             raise Skip("already a member")
+        _note_attach(e, s, e[z])
+        _enter(e, s, z)
         coll.append(e[y])
     return (f"{x}.{attr}.remove({y});{z}.{attr}.append({y})", fn)
 
@@ -94,6 +119,24 @@ def _m2o(obj, rel, fk, byid):
         return d[rel]
     v = d.get(fk)
     return None if v is None else byid.get(v)
+
+
+def on_cycle_ids(edges):
+    """edges: node -> set(nodes); True when a directed cycle exists"""
+    state = {}
+
+    def visit(n):
+        if state.get(n) == 1:
+            return True
+        if state.get(n) == 2:
+            return False
+        state[n] = 1
+        for m in edges.get(n, ()):
+            if visit(m):
+                return True
+        state[n] = 2
+        return False
+    return any(visit(n) for n in list(edges))
 
 
 def _in_session(s, obj):
@@ -220,6 +263,68 @@ def _world_o2m(variant):
     return types.SimpleNamespace(name="o2m_" + variant, Base=Base, classes=names, graphs=graphs, new=new, ops=ops, core=core, unsat=unsat)
 
 
+def _world_uni(variant):
+    """unidirectional relationships between two plain classes.  variant: o2m (P.children only, nullable FK, nullify) |
+    o2m_cascade (P.children only, NOT NULL FK, all + delete-orphan) | m2o (C.parent only, nullable FK)"""
+    from sqlalchemy import Column, ForeignKey, Integer
+    from sqlalchemy.orm import declarative_base, relationship
+    Base = declarative_base()
+    notnull = variant == "o2m_cascade"
+
+    class P(Base):
+        __tablename__ = "p"
+        id = Column(Integer, primary_key=True)
+        if variant != "m2o":
+            children = relationship("C", **({"cascade": "all, delete-orphan"} if notnull else {}))
+
+    class C(Base):
+        __tablename__ = "c"
+        id = Column(Integer, primary_key=True)
+        pid = Column(ForeignKey("p.id"), nullable=not notnull)
+        if variant == "m2o":
+            parent = relationship("P")
+
+    graphs = [
+        {"p": [dict(id=0), dict(id=1)], "c": [dict(id=0, pid=0), dict(id=1, pid=0), dict(id=2, pid=1)]},
+        {"p": [dict(id=0), dict(id=1)], "c": [dict(id=0, pid=1), dict(id=1, pid=1 if notnull else None)]},
+    ]
+    new = {"p2": lambda: P(id=2), "c3": lambda: C(id=3)}
+    ops = [_add("p2")] + ([_add("c3")] if not notnull else [])
+    ops += [_delete(x) for x in ("p0", "p1", "c0", "c1", "c2")]
+    if variant == "m2o":
+        for c in ("c0", "c1", "c2", "c3"):
+            for p in ("p0", "p1", "p2", None):
+                ops.append(_set(c, "parent", p))
+        ops += [_load("c0", "parent")]
+        core = {"s.add(p2)", "s.add(c3)", "s.delete(p0)", "s.delete(p1)", "s.delete(c0)", "s.delete(c1)", "s.delete(c2)", "c0.parent=p1", "c1.parent=p2", "c0.parent=None",
+                "c3.parent=p0", "c3.parent=p2", "c2.parent=p0", "load c0.parent"}
+    else:
+        for p in ("p0", "p1"):
+            for c in ("c0", "c1", "c2"):
+                ops.append(_remove(p, "children", c))
+                ops.append(_remove_delete(p, "children", c))
+        for p in ("p0", "p1", "p2"):
+            ops.append(_append_exclusive(p, "children", "c3"))
+        ops += [_move("p0", "children", "c0", "p1"), _move("p0", "children", "c1", "p2"), _move("p1", "children", "c2", "p0"), _move("p1", "children", "c0", "p2"),
+                _move("p1", "children", "c0", "p0")]
+        ops += [_load("p0", "children"), _load("p1", "children")]
+        core = {"s.add(p2)", "s.delete(p0)", "s.delete(p1)", "s.delete(c0)", "s.delete(c1)", "s.delete(c2)", "p0.children.remove(c0)", "p0.children.remove(c1);s.delete(c1)",
+                "p1.children.append(c3)", "p2.children.append(c3)", "p0.children.remove(c0);p1.children.append(c0)", "p0.children.remove(c1);p2.children.append(c1)",
+                "p1.children.remove(c2);p0.children.append(c2)", "load p0.children"}
+
+    def unsat(e, s):
+        from sqlalchemy import inspect
+        if variant == "m2o":
+            ps = {o.id: o for o in e.values() if isinstance(o, P)}
+            for k, c in e.items():
+                if isinstance(c, C) and _in_session(s, c):
+                    par = _m2o(c, "parent", "pid", ps)
+                    if par is not None and (par in s.deleted or not (inspect(par).persistent or inspect(par).pending)):
+                        return f"{k}.parent (many-to-one without a reverse side) refers to a deleted / unsaved row"
+        return None
+    return types.SimpleNamespace(name="uni_" + variant, Base=Base, classes={"p": P, "c": C}, graphs=graphs, new=new, ops=ops, core=core, unsat=unsat)
+
+
 def _world_m2m():
     from sqlalchemy import Column, ForeignKey, Integer, Table
     from sqlalchemy.orm import declarative_base, relationship
@@ -257,6 +362,114 @@ def _world_m2m():
     core = {"s.add(l2)", "s.delete(l0)", "s.delete(r0)", "s.delete(r1)", "l0.rights.append(r2)", "l2.rights.append(r0)", "l1.rights.append(r1)", "l0.rights.remove(r0)",
             "r0.lefts.remove(l1)", "l0.rights.remove(r1);s.delete(r1)", "l0.rights.remove(r0);s.delete(r0)", "r2.lefts.append(l1)", "load r0.lefts", "l2.rights.append(r2)"}
     return types.SimpleNamespace(name="m2m", Base=Base, classes={"l": L, "r": R}, graphs=graphs, new=new, ops=ops, core=core, unsat=lambda e, s: None)
+
+
+def _world_uni_m2m():
+    """many-to-many declared on one side only (L.rights), plain classes"""
+    from sqlalchemy import Column, ForeignKey, Integer, Table
+    from sqlalchemy.orm import declarative_base, relationship
+    Base = declarative_base()
+    lr = Table("lr", Base.metadata, Column("lid", ForeignKey("l.id"), primary_key=True), Column("rid", ForeignKey("r.id"), primary_key=True))
+
+    class L(Base):
+        __tablename__ = "l"
+        id = Column(Integer, primary_key=True)
+        rights = relationship("R", secondary=lr)
+
+    class R(Base):
+        __tablename__ = "r"
+        id = Column(Integer, primary_key=True)
+
+    graphs = [
+        {"l": [dict(id=0), dict(id=1)], "r": [dict(id=0), dict(id=1)], "lr": [dict(lid=0, rid=0), dict(lid=0, rid=1), dict(lid=1, rid=0)]},
+        {"l": [dict(id=0), dict(id=1)], "r": [dict(id=0), dict(id=1)], "lr": [dict(lid=1, rid=1)]},
+    ]
+    new = {"l2": lambda: L(id=2), "r2": lambda: R(id=2)}
+    ops = [_add("l2"), _add("r2")] + [_delete(x) for x in ("l0", "l1", "r0", "r1")]
+    for a in ("l0", "l1", "l2"):
+        for b in ("r0", "r1", "r2"):
+            ops.append(_append(a, "rights", b))
+    for a in ("l0", "l1"):
+        for b in ("r0", "r1"):
+            ops.append(_remove(a, "rights", b))
+            ops.append(_remove_delete(a, "rights", b))
+    ops += [_load("l0", "rights"), _load("l1", "rights")]
+    core = {"s.add(l2)", "s.delete(l0)", "s.delete(l1)", "s.delete(r1)", "l0.rights.append(r2)", "l2.rights.append(r0)", "l1.rights.append(r1)", "l0.rights.remove(r0)",
+            "l0.rights.remove(r1);s.delete(r1)", "l1.rights.remove(r0);s.delete(r0)", "l1.rights.remove(r1);s.delete(r1)", "load l0.rights", "l2.rights.append(r2)"}
+
+    def unsat(e, s):
+        from sqlalchemy import inspect
+        g = e["_graph"]
+        for k, r in e.items():
+            if isinstance(r, R) and r in s.deleted:
+                for kl, l in e.items():
+                    if isinstance(l, L) and _in_session(s, l):
+                        cur = l.__dict__["rights"] if "rights" in l.__dict__ else [x for x in e.values() if isinstance(x, R) and dict(lid=l.id, rid=x.id) in g["lr"]]
+                        if r in cur:
+                            return f"{k} is deleted while the unidirectional {kl}.rights still holds it"
+        return None
+    return types.SimpleNamespace(name="uni_m2m", Base=Base, classes={"l": L, "r": R}, graphs=graphs, new=new, ops=ops, core=core, unsat=unsat)
+
+
+def _world_mutual():
+    """two classes that depend on each other at the mapper level WITHOUT post_update (rows stay acyclic): A.bs <-> B.a through b.a_id and
+    B.as_ <-> A.b through a.b_id — every flush that touches both takes the per-state path with two different mappers"""
+    from sqlalchemy import Column, ForeignKey, Integer
+    from sqlalchemy.orm import declarative_base, relationship
+    Base = declarative_base()
+
+    class A(Base):
+        __tablename__ = "a"
+        id = Column(Integer, primary_key=True)
+        b_id = Column(ForeignKey("b.id", name="fk_a_b", use_alter=True))
+        bs = relationship("B", back_populates="a", foreign_keys="B.a_id")
+        b = relationship("B", back_populates="as_", foreign_keys=b_id)
+
+    class B(Base):
+        __tablename__ = "b"
+        id = Column(Integer, primary_key=True)
+        a_id = Column(ForeignKey("a.id"))
+        a = relationship("A", back_populates="bs", foreign_keys=a_id)
+        as_ = relationship("A", back_populates="b", foreign_keys="A.b_id")
+
+    graphs = [
+        # a0 <- b0 <- a1 <- b1 (a chain), b2 alone
+        {"a": [dict(id=0, b_id=None), dict(id=1, b_id=0)], "b": [dict(id=0, a_id=0), dict(id=1, a_id=1), dict(id=2, a_id=None)]},
+        {"a": [dict(id=0, b_id=1), dict(id=1, b_id=None)], "b": [dict(id=0, a_id=None), dict(id=1, a_id=1)]},
+    ]
+    new = {"a2": lambda: A(id=2), "b3": lambda: B(id=3)}
+    ops = [_add("a2"), _add("b3")] + [_delete(x) for x in ("a0", "a1", "b0", "b1", "b2")]
+    for a in ("a0", "a1", "a2"):
+        for b in ("b0", "b1", "b3", None):
+            ops.append(_set(a, "b", b))
+    for b in ("b0", "b1", "b2", "b3"):
+        for a in ("a0", "a1", "a2", None):
+            ops.append(_set(b, "a", a))
+    ops += [_remove("a0", "bs", "b0"), _remove("a1", "bs", "b1"), _remove("b0", "as_", "a1"), _append("a2", "bs", "b3"), _append("a1", "bs", "b2"), _append("b3", "as_", "a2"),
+            _append("b1", "as_", "a2"), _load("a0", "bs"), _load("b0", "as_"), _load("a1", "b")]
+    core = {"s.add(a2)", "s.add(b3)", "s.delete(a0)", "s.delete(a1)", "s.delete(b0)", "s.delete(b1)", "a1.b=b1", "a2.b=b1", "a1.b=None", "a0.b=b3", "b3.a=a1", "b2.a=a2", "b0.a=None",
+            "b1.a=a0", "a2.bs.append(b3)", "b3.as_.append(a2)", "a1.bs.remove(b1)", "load a0.bs"}
+
+    def unsat(e, s):
+        # documented: mutually dependent tables need post_update as soon as rows depend on each other; the unit of work orders an
+        # object after its previous AND its new target, so the precondition is: previous + new references together are acyclic
+        As = {o.id: o for o in e.values() if isinstance(o, A)}
+        Bs = {o.id: o for o in e.values() if isinstance(o, B)}
+        g = e["_graph"]
+        edges = {}
+        from sqlalchemy import inspect
+        for k, o in e.items():
+            if k.startswith("_") or inspect(o).transient:      # deleted rows count too: deleting mutually referencing rows needs post_update as well
+                continue
+            if isinstance(o, A):
+                tg = [_m2o(o, "b", "b_id", Bs)] + [Bs.get(r["b_id"]) for r in g["a"] if r["id"] == o.id]
+            else:
+                tg = [_m2o(o, "a", "a_id", As)] + [As.get(r["a_id"]) for r in g["b"] if r["id"] == o.id]
+            edges[id(o)] = {id(t) for t in tg if t is not None}
+        if on_cycle_ids(edges):
+            return "previous + new references between a and b rows form a cycle (mutually dependent rows need post_update)"
+        return None
+    return types.SimpleNamespace(name="mutual", Base=Base, classes={"a": A, "b": B}, graphs=graphs, new=new, ops=ops, core=core, unsat=unsat)
 
 
 def _world_selfref(cascade):
@@ -486,7 +699,7 @@ def _world_joined():
                                  graphs=graphs, new=new, ops=ops, core=core, unsat=lambda e, s: None)
 
 
-WORLD_NAMES = ("o2m_nullable", "o2m_cascade", "o2m_nocascade", "o2m_passive", "m2m", "selfref", "selfref_cascade", "post_update", "joined")
+WORLD_NAMES = ("uni_o2m", "uni_o2m_cascade", "uni_m2o", "o2m_nullable", "o2m_cascade", "o2m_nocascade", "o2m_passive", "m2m", "uni_m2m", "mutual", "selfref", "selfref_cascade", "post_update", "joined")
 
 
 def world(name):
@@ -494,8 +707,14 @@ def world(name):
     if name not in _WORLDS:
         if name.startswith("o2m_"):
             w = _world_o2m(name[4:])
+        elif name.startswith("uni_"):
+            w = _world_uni(name[4:])
         elif name == "m2m":
             w = _world_m2m()
+        elif name == "uni_m2m":
+            w = _world_uni_m2m()
+        elif name == "mutual":
+            w = _world_mutual()
         elif name == "selfref":
             w = _world_selfref(False)
         elif name == "selfref_cascade":
